@@ -536,27 +536,32 @@ Lemma mark_eq m h :
   mark m h = if (match last m with Some l => h <=? l | None => false end) then m else m ++ [h].
 Proof. unfold mark. destruct (last m) as [l|]; [destruct (h <=? l)|]; reflexivity. Qed.
 
-Lemma incr_snoc m h : incr m → (∀ l, last m = Some l → l < h) → incr (m ++ [h]).
+Lemma incr_snoc m h : incr m → Forall (λ x, x < h) m → incr (m ++ [h]).
 Proof.
   induction m as [|x m IH]; intros Hs Hl; simpl.
   - repeat constructor.
-  - apply StronglySorted_inv in Hs as [Hs Hx]. constructor.
-    + apply IH; [exact Hs|]. intros l El. apply Hl. destruct m; [discriminate|exact El].
-    + apply Forall_app. split; [exact Hx|]. constructor; [|constructor].
-      destruct m as [|y m]; [apply Hl; reflexivity|].
-      destruct (last (y :: m)) as [l|] eqn:El.
-      * assert (l < h) by (apply Hl; exact El).
-        assert (x < l); [|lia]. rewrite Forall_forall in Hx. apply Hx. apply last_Some in El as [l' ->].
-        apply elem_of_app. right. left.
-      * apply last_None in El. discriminate.
+  - apply StronglySorted_inv in Hs as [Hs Hx]. apply Forall_cons in Hl as [Hxh Hl]. constructor.
+    + apply IH; assumption.
+    + apply Forall_app. split; [exact Hx|]. constructor; [exact Hxh|constructor].
+Qed.
+
+Lemma incr_le_last m l : incr m → last m = Some l → Forall (λ x, x ≤ l) m.
+Proof.
+  induction m as [|x m IH]; intros Hs Hl; [constructor|].
+  apply StronglySorted_inv in Hs as [Hs Hx].
+  destruct m as [|y m].
+  - injection Hl as <-. constructor; [lia|constructor].
+  - change (last (y :: m) = Some l) in Hl. specialize (IH Hs Hl).
+    constructor; [|exact IH]. apply Forall_cons in Hx as [Hxy _]. apply Forall_cons in IH as [Hyl _]. lia.
 Qed.
 
 (* marks stay strictly increasing *)
 Lemma mark_incr m h : incr m → incr (mark m h).
 Proof.
   intros Hs. rewrite mark_eq. destruct (last m) as [l|] eqn:El.
-  - destruct (h <=? l) eqn:E; [exact Hs|]. apply incr_snoc; [exact Hs|]. intros l' [= <-]. lia.
-  - apply incr_snoc; [exact Hs|]. intros l' [=].
+  - destruct (h <=? l) eqn:E; [exact Hs|]. apply incr_snoc; [exact Hs|].
+    eapply Forall_impl; [apply incr_le_last; eassumption|]. intros x Hx. simpl in Hx. lia.
+  - apply last_None in El. subst m. repeat constructor.
 Qed.
 
 Section window.
@@ -798,3 +803,390 @@ Proof.
     intros b Hb. rewrite H6 by (intros pw' Hin; apply (Hb pw'); right; exact Hin).
     apply F6. intros ->. apply (Hb pw). left.
 Qed.
+
+(* ================================================================== L5: begin_block as a whole *)
+(* L5.  The order is: proposals are punished, the eligible set and the limiter are rebuilt from
+   the committed tree, stakes are punished, then the vote loop rewards the signers (InvReward, R1)
+   and marks / jails the others.  Accounts, frozen proposals, the parameter ledger, the committed
+   versions, the in-memory parameters and the last validator set never change; [props] changes
+   only through gov_punish; [dels] and [frozen] only through stake_punish and jailing. *)
+Theorem begin_block_frame s hd s' r :
+  begin_block s hd = (s', r) →
+  let ratio := g_slashRatio (gparams s) in
+  let evi := h_evidence hd in
+  let h := h_height hd in
+  let l2 := stake_punish (gov_punish (work s) ratio evi) ratio evi in
+  (h ≠ last_height s + 1 → s' = s ∧ r = Panic P_BEGINBLOCK) ∧
+  (h = last_height s + 1 →
+     committed s' = committed s ∧ gparams s' = gparams s ∧ newparams s' = newparams s ∧
+     lastvals s' = lastvals s ∧ last_height s' = last_height s ∧
+     bctx s' = {| b_height := h; b_proposer := h_proposer hd; b_feesum := 0; b_txs := 0 |} ∧
+     accts (work s') = accts (work s) ∧ fprops (work s') = fprops (work s) ∧ lparams (work s') = lparams (work s) ∧
+     props (work s') = punish_props ratio (props (work s)) evi ∧
+     dels l2 = punish_dels ratio (dels (work s)) evi ∧ frozen l2 = frozen (work s) ∧
+     match r with
+     | Ok _ => dels (work s') = dels (jail_votes (gparams s) h l2 (h_votes hd)) ∧
+               frozen (work s') = frozen (jail_votes (gparams s) h l2 (h_votes hd))
+     | _ => dels (work s') = dels l2 ∧ frozen (work s') = frozen l2 ∧ rewards (work s') = rewards (work s)
+     end).
+Proof.
+  intros H ratio evi h l2. unfold begin_block in H.
+  destruct (negb (h_height hd =? last_height s + 1)) eqn:Eh.
+  { injection H as <- <-. apply negb_true_iff, Z.eqb_neq in Eh. split; [auto|]. intros E. contradiction. }
+  apply negb_false_iff, Z.eqb_eq in Eh. split; [intros E; contradiction|]. intros _.
+  cbv zeta in H. fold ratio evi l2 in H.
+  assert (Hl2 : accts l2 = accts (work s) ∧ fprops l2 = fprops (work s) ∧ lparams l2 = lparams (work s) ∧
+                props l2 = punish_props ratio (props (work s)) evi ∧
+                dels l2 = punish_dels ratio (dels (work s)) evi ∧ frozen l2 = frozen (work s) ∧
+                rewards l2 = rewards (work s)).
+  { subst l2. rewrite stake_punish_eq, gov_punish_eq. simpl. repeat split. }
+  destruct Hl2 as (A1 & A2 & A3 & A4 & A5 & A6 & A7).
+  destruct (h_votes hd) as [|v votes] eqn:Ev.
+  - injection H as <- <-. simpl. repeat split; assumption.
+  - match type of H with (match process_votes ?x _ _ _ with _ => _ end) = _ => set (s1 := x) in * end.
+    destruct (process_votes s1 l2 (h_height hd) (v :: votes)) as [[l3 iss]|e|p] eqn:Ep;
+      injection H as <- <-; simpl; try (repeat split; assumption).
+    unfold process_votes in Ep. destruct (ledgers_at s1 (hgt_of_power (h_height hd))) as [old|] eqn:Eold; [|discriminate].
+    change (foldl (vote_step s1 old (h_height hd)) (Ok (l2, 0)) (v :: votes) = Ok (l3, iss)) in Ep.
+    apply vote_fold_jail in Ep. change (gparams s1) with (gparams s) in Ep.
+    destruct (jail_votes_frame (gparams s) (h_height hd) (v :: votes) l2) as (J1 & J2 & J3 & J4 & J5 & _).
+    rewrite Ep. subst s1.
+    cbn [work with_work committed gparams newparams lastvals last_height bctx accts fprops lparams props dels frozen set_rewards].
+    repeat split; congruence.
+Qed.
+Print Assumptions begin_block_frame.
+
+(* ================================================================== example *)
+(* two validators (1: power 100, 2: power 1000); validator 1 is also an asset holder and opens a
+   proposal in block 3.  In block 4 there is evidence against validator 1 and validator 2 did
+   not sign.  Slash ratio 50 %, signing window 2 with at least 2 signed blocks required. *)
+Definition sl_params : params :=
+  {| g_version := 1; g_maxValidatorCnt := 21; g_minValidatorStake := amountPerPower; g_minDelegatorStake := 0;
+     g_rewardPerPower := 3; g_lazyRewardBlocks := 10; g_lazyApplyingBlocks := 10; g_gasPrice := 1;
+     g_minTrxGas := 1; g_maxTrxGas := 1000000; g_maxBlockGas := 10000000; g_minVotingPeriodBlocks := 1;
+     g_maxVotingPeriodBlocks := 100; g_minSelfStakeRatio := 50; g_maxUpdatableStakeRatio := 30;
+     g_maxIndividualStakeRatio := 100; g_slashRatio := 50; g_signedBlocksWindow := 2; g_minSignedBlocks := 2 |}.
+Definition sl_gen : genesis :=
+  {| gen_params := sl_params; gen_holders := [(1%N, 1000000)]; gen_validators := [(1%N, 100); (2%N, 1000)] |}.
+Definition sl_hdr (h : Z) (votes : list (addr * Z * bool)) (evi : list addr) : header :=
+  {| h_height := h; h_proposer := Some 1%N; h_votes := votes; h_evidence := evi |}.
+Definition sl_prop_tx : tx :=
+  {| t_type := TRX_PROPOSAL; t_from := 1%N; t_to := 0%N; t_from_ok := true; t_to_ok := true; t_amount := 0;
+     t_price := 1; t_gas := 10; t_nonce := 0; t_payload := PProposal 5 10 30 0 [(1%N, None); (2%N, None)] true;
+     t_hash := 55%N; t_sigok := true; t_evm := None |}.
+Definition sl_vote_tx : tx :=
+  {| t_type := TRX_VOTING; t_from := 1%N; t_to := 0%N; t_from_ok := true; t_to_ok := true; t_amount := 0;
+     t_price := 1; t_gas := 10; t_nonce := 1; t_payload := PVoting 55%N 1; t_hash := 56%N; t_sigok := true; t_evm := None |}.
+Definition sl_run : list sop :=
+  [SBegin (sl_hdr 1 [] []); SEnd; SCommit;
+   SBegin (sl_hdr 2 [(1%N, 100, true); (2%N, 1000, true)] []); SEnd; SCommit;
+   SBegin (sl_hdr 3 [(1%N, 100, true); (2%N, 1000, true)] []); SDeliver sl_prop_tx; SEnd; SCommit;
+   SBegin (sl_hdr 4 [(1%N, 100, true); (2%N, 1000, true)] []); SEnd; SCommit;
+   SBegin (sl_hdr 5 [(1%N, 100, true); (2%N, 1000, true)] []); SDeliver sl_vote_tx; SEnd; SCommit].
+Definition sl_s : state := srun (init_chain sl_gen) sl_run.
+Definition sl_hd6 : header := sl_hdr 6 [(1%N, 100, true); (2%N, 1000, false)] [1%N].
+Definition sl_s' : state := (begin_block sl_s sl_hd6).1.
+Definition prop_digest (p : proposal) := (p_total p, p_majority p, p_voters p !! 1%N, p_voters p !! 2%N, o_votes <$> p_options p).
+
+(* the hypotheses of the theorems above hold on this state ... *)
+Example slash_hyps_example :
+  h_height sl_hd6 = last_height sl_s + 1 ∧ 0 ≤ g_slashRatio (gparams sl_s) ≤ 100 ∧
+  (∃ d, dels (work sl_s) !! 1%N = Some d ∧ Forall (λ s, 0 ≤ s_power s) (d_stakes d) ∧ NoDup (s_hash <$> d_stakes d) ∧
+        incr (d_marks d)) ∧
+  (∃ p v, props (work sl_s) !! 55%N = Some p ∧ p_voters p !! 1%N = Some v ∧ 0 ≤ v_power v < two63 ∧
+          prop_digest p = (1100, 733, Some {| v_power := 100; v_choice := 1 |}, Some {| v_power := 1000; v_choice := -1 |}, [0; 100])).
+Proof.
+  split; [vm_compute; reflexivity|]. split; [vm_compute; split; discriminate|]. split.
+  - eexists. split; [vm_compute; reflexivity|]. split; [repeat constructor; simpl; lia|].
+    split; [simpl; apply NoDup_singleton|constructor].
+  - destruct (props (work sl_s) !! 55%N) as [p|] eqn:Ep; [|vm_compute in Ep; discriminate].
+    exists p. assert (Hd : prop_digest <$> props (work sl_s) !! 55%N = Some (1100, 733, Some {| v_power := 100; v_choice := 1 |}, Some {| v_power := 1000; v_choice := -1 |}, [0; 100])) by (vm_compute; reflexivity).
+    rewrite Ep in Hd. cbn [fmap option_fmap option_map] in Hd. injection Hd as H1 H2 H3 H4 H5.
+    eexists. split; [reflexivity|]. split; [exact H3|]. split; [simpl; split; [lia|reflexivity]|].
+    unfold prop_digest. rewrite H1, H2, H3, H4, H5. reflexivity.
+Qed.
+
+(* ... and this is what block 6 does: 300 issued to the signer (on its pre-slash stake of four
+   blocks ago); validator 1 loses half of its stake and half of its voting weight in the open
+   proposal (the option it voted for loses 50, total 1100 -> 1050, majority 733 -> 700);
+   validator 2, which missed the block, is jailed: no delegatee any more, its stake unbonding
+   with refund height 6 + 10. *)
+Example begin_block_example :
+  (begin_block sl_s sl_hd6).2 = Ok 300 ∧
+  prop_digest <$> props (work sl_s') !! 55%N
+    = Some (1050, 700, Some {| v_power := 50; v_choice := 1 |}, Some {| v_power := 1000; v_choice := -1 |}, [0; 50]) ∧
+  dels (work sl_s') !! 1%N
+    = Some {| d_addr := 1%N; d_self := 50; d_total := 50;
+              d_stakes := [{| s_from := 1%N; s_to := 1%N; s_hash := 0%N; s_start := 1; s_refund := 0; s_power := 50 |}];
+              d_marks := [] |} ∧
+  dels (work sl_s') !! 2%N = None ∧
+  frozen (work sl_s') !! 0%N = Some {| s_from := 2%N; s_to := 2%N; s_hash := 0%N; s_start := 1; s_refund := 16; s_power := 1000 |} ∧
+  accts (work sl_s') !! 1%N = accts (work sl_s) !! 1%N ∧ accts (work sl_s') !! 2%N = accts (work sl_s) !! 2%N.
+Proof.
+  split; [vm_compute; reflexivity|]. split; [vm_compute; reflexivity|]. split; [vm_compute; reflexivity|].
+  split; [vm_compute; reflexivity|]. split; [vm_compute; reflexivity|]. split; vm_compute; reflexivity.
+Qed.
+
+(* ================================================================== the hypotheses on reachable states *)
+(* ------------------------------------------------------------------ from the shared vocabulary *)
+Lemma NoDup_fmap_concat_elem {A B} (f : A → B) (ls : list (list A)) l :
+  NoDup (f <$> concat ls) → l ∈ ls → NoDup (f <$> l).
+Proof.
+  induction ls as [|x ls IH]; intros Hnd Hin; [inversion Hin|].
+  simpl in Hnd. rewrite fmap_app in Hnd. apply NoDup_app in Hnd as (H1 & _ & H2).
+  apply elem_of_cons in Hin as [->|Hin]; [exact H1|apply IH; assumption].
+Qed.
+
+(* L1's hypotheses follow from [hashes_unique] and [ranges_ok] *)
+Lemma delegatee_hashes_NoDup l a d : hashes_unique l → dels l !! a = Some d → NoDup (s_hash <$> d_stakes d).
+Proof.
+  intros [Hnd _] Hd. rewrite fmap_app in Hnd. apply NoDup_app in Hnd as (Hnd & _ & _).
+  unfold bonded_stakes in Hnd. eapply NoDup_fmap_concat_elem; [exact Hnd|].
+  apply elem_of_list_fmap. exists (a, d). split; [reflexivity|]. apply elem_of_map_to_list, Hd.
+Qed.
+
+Lemma delegatee_powers_ok l a d : ranges_ok l → dels l !! a = Some d → Forall (λ s, 0 ≤ s_power s < two63) (d_stakes d).
+Proof.
+  intros (_ & Hp & _) Hd. apply Forall_forall. intros s Hs. apply Hp. apply elem_of_app. left.
+  unfold bonded_stakes. apply elem_of_list_In, in_concat. exists (d_stakes d). split; [|apply elem_of_list_In, Hs].
+  apply elem_of_list_In, elem_of_list_fmap. exists (a, d). split; [reflexivity|]. apply elem_of_map_to_list, Hd.
+Qed.
+
+(* ------------------------------------------------------------------ marks are strictly increasing along every run *)
+Definition marks_incr (l : ledgers) : Prop := ∀ a d, dels l !! a = Some d → incr (d_marks d).
+
+Lemma marks_incr_dels l l' : dels l' = dels l → marks_incr l → marks_incr l'.
+Proof. intros E H a d. rewrite E. apply H. Qed.
+
+Lemma marks_incr_insert l a d : marks_incr l → incr (d_marks d) → marks_incr (set_dels l (<[a := d]> (dels l))).
+Proof.
+  intros H Hd b d' Hb. simpl in Hb. destruct (decide (b = a)) as [->|Hne].
+  - rewrite lookup_insert in Hb. injection Hb as <-. exact Hd.
+  - rewrite lookup_insert_ne in Hb by congruence. eapply H, Hb.
+Qed.
+
+Lemma marks_incr_delete l a : marks_incr l → marks_incr (set_dels l (delete a (dels l))).
+Proof. intros H b d Hb. simpl in Hb. apply lookup_delete_Some in Hb as [_ Hb]. eapply H, Hb. Qed.
+
+Lemma slash1_marks ratio d : d_marks (slash1 ratio d) = d_marks d.
+Proof. reflexivity. Qed.
+
+Lemma stake_punish_marks l ratio evi : marks_incr l → marks_incr (stake_punish l ratio evi).
+Proof.
+  intros H a d Hd. destruct (stake_punish_spec l ratio evi) as (Hl & _). rewrite Hl in Hd.
+  destruct (dels l !! a) as [d0|] eqn:E; [|discriminate]. simpl in Hd. injection Hd as <-.
+  induction (times a evi) as [|n IH]; [eapply H, E|]. exact IH.
+Qed.
+
+Lemma jail_step_marks g h l a : marks_incr l → marks_incr (jail_step g h l a).
+Proof.
+  intros H. unfold jail_step. destruct (dels l !! a) as [d|] eqn:Ed; [|exact H]. cbv zeta.
+  destruct (count_in_window _ _ _) as [cnt m2] eqn:Ec.
+  destruct (_ <? g_minSignedBlocks g).
+  - eapply marks_incr_dels; [|apply (marks_incr_delete l a H)]. reflexivity.
+  - apply marks_incr_insert; [exact H|]. simpl.
+    replace m2 with (count_in_window (mark (d_marks d) (h - 1)) (if h - 1 - g_signedBlocksWindow g <? 0 then 0 else h - 1 - g_signedBlocksWindow g) (h - 1)).2 by (rewrite Ec; reflexivity).
+    apply count_in_window_incr, mark_incr. eapply H, Ed.
+Qed.
+
+Lemma jail_votes_marks g h votes : ∀ l, marks_incr l → marks_incr (jail_votes g h l votes).
+Proof.
+  unfold jail_votes. induction votes as [|[[a pw] sg] votes IH]; intros l H; simpl; [exact H|].
+  destruct sg; simpl; apply IH; [exact H|apply jail_step_marks, H].
+Qed.
+
+Lemma begin_block_marks s hd : marks_incr (work s) → marks_incr (work (begin_block s hd).1).
+Proof.
+  intros H. destruct (begin_block s hd) as [s' r] eqn:Hb. simpl.
+  destruct (begin_block_frame _ _ _ _ Hb) as [Hne Heq].
+  destruct (Z.eq_dec (h_height hd) (last_height s + 1)) as [E|E].
+  - destruct (Heq E) as (_ & _ & _ & _ & _ & _ & _ & _ & _ & _ & _ & _ & Hr).
+    assert (H2 : marks_incr (stake_punish (gov_punish (work s) (g_slashRatio (gparams s)) (h_evidence hd)) (g_slashRatio (gparams s)) (h_evidence hd))).
+    { apply stake_punish_marks. eapply marks_incr_dels; [|exact H]. rewrite gov_punish_eq. reflexivity. }
+    destruct r as [i|e|p].
+    + destruct Hr as [Hd _]. eapply marks_incr_dels; [exact Hd|]. apply jail_votes_marks, H2.
+    + destruct Hr as [Hd _]. eapply marks_incr_dels; [exact Hd|exact H2].
+    + destruct Hr as [Hd _]. eapply marks_incr_dels; [exact Hd|exact H2].
+  - destruct (Hne E) as [-> _]. exact H.
+Qed.
+
+(* the ledgers a DeliverTx can leave behind *)
+Lemma deliver_work_cases s t :
+  let l0 := (find_or_new (work s) (t_to t)).1 in
+  work (deliver s t).1 = work s ∨ work (deliver s t).1 = l0 ∨
+  (∃ l' g, evm_execute l0 t = Ok (l', g) ∧ work (deliver s t).1 = l') ∨
+  (∃ s2 l', b_height (bctx s2) = b_height (bctx s) ∧ gparams s2 = gparams s ∧
+            (gov_execute s2 l0 t = Ok l' ∨ acct_execute l0 t = Ok l' ∨ stake_execute s2 l0 t = Ok l') ∧
+            (work (deliver s t).1 = l' ∨ ∃ x, work (deliver s t).1 = set_acct l' (t_from t) x)).
+Proof.
+  intros l0. destruct (deliver s t) as [s' r] eqn:Hd. simpl. unfold deliver in Hd.
+  destruct (accts (work s) !! t_from t) as [sender|] eqn:Es; [|injection Hd as <- _; left; reflexivity].
+  cbv zeta in Hd. cbn [work with_bctx] in Hd. subst l0.
+  destruct (find_or_new (work s) (t_to t)) as [l0 receiver] eqn:Ef. simpl.
+  step_in Hd Ecv0; [injection Hd as <- _; right; left; reflexivity|].
+  step_in Hd Ecv1; [injection Hd as <- _; right; left; reflexivity|].
+  step_in Hd Eval; [|injection Hd as <- _; right; left; reflexivity|injection Hd as <- _; right; left; reflexivity].
+  step_in Hd Eevm.
+  - cbn [work with_lim with_work] in Hd.
+    destruct (evm_execute l0 t) as [[l' gas]|e|p] eqn:Ex; injection Hd as <- _; cbn [work with_bctx with_work with_lim];
+      [right; right; left; eauto|right; left; reflexivity|right; left; reflexivity].
+  - cbn [work with_lim with_work] in Hd.
+    step_in Hd Ex; [|injection Hd as <- _; right; left; reflexivity|injection Hd as <- _; right; left; reflexivity].
+    step_in Hd Esnd; [|injection Hd as <- _; right; left; reflexivity].
+    right. right. right. eexists _, a0. split; [|split; [|split]].
+    3:{ destruct ((t_type t =? TRX_PROPOSAL) || (t_type t =? TRX_VOTING)); [left; exact Ex|].
+        destruct ((t_type t =? TRX_TRANSFER) || (t_type t =? TRX_SETDOC)); [right; left; exact Ex|right; right; exact Ex]. }
+    1,2: reflexivity.
+    step_in Hd Efee; injection Hd as <- _; cbn [work with_bctx with_work with_lim]; [right; eauto|left; reflexivity].
+Qed.
+
+Lemma find_or_new_dels l a : dels (find_or_new l a).1 = dels l.
+Proof. unfold find_or_new. destruct (accts l !! a); reflexivity. Qed.
+
+Lemma gov_execute_dels s l t l' : gov_execute s l t = Ok l' → dels l' = dels l.
+Proof. unfold gov_execute. intros H. step_all H; try discriminate; injection H as <-; reflexivity. Qed.
+
+Lemma acct_execute_dels l t l' : acct_execute l t = Ok l' → dels l' = dels l.
+Proof. unfold acct_execute. intros H. step_all H; try discriminate; injection H as <-; reflexivity. Qed.
+
+Lemma evm_execute_dels l t l' g : evm_execute l t = Ok (l', g) → dels l' = dels l.
+Proof.
+  unfold evm_execute. intros H.
+  destruct (t_evm t) as [e|]; [|discriminate].
+  destruct (negb (e_ok e)); [discriminate|]. injection H as <- _.
+  assert (Hf : ∀ xs l0, dels (foldl (λ l x, let '(a, bal, nonce) := x in
+                  let old := default acct0 (accts l !! a) in
+                  set_acct l a {| a_nonce := nonce; a_bal := bal; a_code := a_code old; a_name := a_name old; a_doc := a_doc old |})
+                l0 xs) = dels l0).
+  { induction xs as [|[[a bal] nonce] xs IH]; intros l0; simpl; [reflexivity|]. rewrite IH. reflexivity. }
+  destruct (e_created e); simpl; apply Hf.
+Qed.
+
+Lemma del_stake_marks d h : d_marks (del_stake d h) = d_marks d.
+Proof. unfold del_stake. destruct (find_stake h (d_stakes d)); reflexivity. Qed.
+
+Lemma stake_execute_marks s l t l' : stake_execute s l t = Ok l' → marks_incr l → marks_incr l'.
+Proof.
+  unfold stake_execute. intros H Hm. cbv zeta in H.
+  destruct (t_type t =? TRX_STAKING).
+  - destruct (match dels l !! t_to t with Some d => Some d | None => _ end) as [d|] eqn:Ed; [|discriminate].
+    destruct (accts l !! t_from t) as [sender|]; [|discriminate].
+    destruct (sub_balance sender (t_amount t)) as [sender'|]; [|discriminate]. injection H as <-.
+    apply (marks_incr_insert (set_acct l (t_from t) sender')); [exact Hm|]. simpl.
+    destruct (dels l !! t_to t) as [d0|] eqn:E0.
+    + injection Ed as <-. eapply Hm, E0.
+    + destruct (t_from t =? t_to t)%N; [injection Ed as <-; constructor|discriminate].
+  - destruct (t_type t =? TRX_UNSTAKING).
+    + destruct (dels l !! t_to t) as [d|] eqn:Ed; [|discriminate].
+      destruct (t_payload t) as [|hs ok| | | | |]; try discriminate.
+      destruct (find_stake hs (d_stakes d)) as [s0|]; [|discriminate].
+      destruct (negb (s_from s0 =? t_from t)%N); [discriminate|].
+      destruct (if d_self (del_stake d hs) =? 0 then _ else _) as [d2 fr2] eqn:E2.
+      assert (Hd2 : d_marks d2 = d_marks d).
+      { destruct (d_self (del_stake d hs) =? 0); injection E2 as <- _; simpl; apply del_stake_marks. }
+      destruct (d_total d2 =? 0); injection H as <-.
+      * apply (marks_incr_delete (set_frozen l fr2)). exact Hm.
+      * apply (marks_incr_insert (set_frozen l fr2)); [exact Hm|]. rewrite Hd2. eapply Hm, Ed.
+    + destruct (t_payload t) as [| |req| | | |]; try discriminate.
+      destruct (rewards l !! t_from t) as [r|]; [|discriminate].
+      destruct (r_height r >? _); [discriminate|].
+      destruct (acct_reward _ _ _) as [l2|] eqn:Ear; [|discriminate]. injection H as <-.
+      unfold acct_reward in Ear. cbn [accts set_rewards] in Ear.
+      destruct (accts l !! t_from t) as [x|]; [|discriminate]. cbn [mbind option_bind] in Ear.
+      destruct (add_balance x req); [|discriminate]. injection Ear as <-. exact Hm.
+Qed.
+
+Lemma deliver_marks s t : marks_incr (work s) → marks_incr (work (deliver s t).1).
+Proof.
+  intros H. pose proof (deliver_work_cases s t) as C. cbv zeta in C.
+  assert (H0 : marks_incr (find_or_new (work s) (t_to t)).1).
+  { eapply marks_incr_dels; [apply find_or_new_dels|exact H]. }
+  destruct C as [->|[->|[(l' & g & Hx & ->)|(s2 & l' & _ & _ & Hx & Hw)]]]; [exact H|exact H0| |].
+  - eapply marks_incr_dels; [eapply evm_execute_dels, Hx|exact H0].
+  - assert (Hl' : marks_incr l').
+    { destruct Hx as [Hx|[Hx|Hx]].
+      - eapply marks_incr_dels; [eapply gov_execute_dels, Hx|exact H0].
+      - eapply marks_incr_dels; [eapply acct_execute_dels, Hx|exact H0].
+      - eapply stake_execute_marks; [exact Hx|exact H0]. }
+    destruct Hw as [->|(x & ->)]; [exact Hl'|]. eapply marks_incr_dels; [|exact Hl']. reflexivity.
+Qed.
+
+Lemma freeze_proposals_dels base l h l' : freeze_proposals base l h = Ok l' → dels l' = dels l.
+Proof.
+  unfold freeze_proposals. apply (foldl_res_inv (λ x, dels x = dels l)).
+  - intros acc kp a' Hacc Hf. destruct acc as [l1| |]; try discriminate. specialize (Hacc _ eq_refl).
+    destruct (p_end kp.2 <? h); [|injection Hf as <-; exact Hacc].
+    destruct (props l1 !! kp.1); [|discriminate].
+    destruct (update_major kp.2) as [p'| |]; try discriminate.
+    destruct (p_major p'); injection Hf as <-; exact Hacc.
+  - intros a [= <-]. reflexivity.
+Qed.
+
+Lemma apply_proposals_dels s base l h l' np : apply_proposals s base l h = Ok (l', np) → dels l' = dels l.
+Proof.
+  unfold apply_proposals. intros H.
+  apply (foldl_res_inv (λ x : ledgers * option params, dels x.1 = dels l)) in H; [exact H| |].
+  - intros acc kp a' Hacc Hf. destruct acc as [[l1 np1]| |]; try discriminate. specialize (Hacc _ eq_refl). simpl in Hacc.
+    destruct (p_apply kp.2 <=? h); [|injection Hf as <-; exact Hacc].
+    destruct (fprops l1 !! kp.1); [|discriminate].
+    destruct (p_major kp.2) as [o|]; [|injection Hf as <-; exact Hacc].
+    destruct (p_opttype kp.2 =? PROPOSAL_GOVPARAMS); [|injection Hf as <-; exact Hacc].
+    destruct (o_params o); [|discriminate]. injection Hf as <-. exact Hacc.
+  - intros a [= <-]. reflexivity.
+Qed.
+
+Lemma unfreeze_dels base l h l' : unfreeze base l h = Ok l' → dels l' = dels l.
+Proof.
+  unfold unfreeze. apply (foldl_res_inv (λ x, dels x = dels l)).
+  - intros acc kp a' Hacc Hf. destruct acc as [l1| |]; try discriminate. specialize (Hacc _ eq_refl).
+    destruct (s_refund kp.2 <=? h); [|injection Hf as <-; exact Hacc].
+    destruct (acct_reward l1 (s_from kp.2) (power_to_amount (s_power kp.2))) as [l2|] eqn:E; [|discriminate].
+    injection Hf as <-. simpl. unfold acct_reward in E.
+    destruct (accts l1 !! s_from kp.2) as [x|]; [|discriminate]. cbn [mbind option_bind] in E.
+    destruct (add_balance x _); [|discriminate]. injection E as <-. exact Hacc.
+  - intros a [= <-]. reflexivity.
+Qed.
+
+Lemma end_block_dels s : dels (work (end_block s).1) = dels (work s).
+Proof.
+  unfold end_block.
+  destruct (freeze_proposals (base_of s) (work s) (b_height (bctx s))) as [l1|e|p] eqn:E1; try reflexivity.
+  destruct (apply_proposals s (base_of s) l1 (b_height (bctx s))) as [[l2 np]|e|p] eqn:E2; try reflexivity.
+  apply freeze_proposals_dels in E1. apply apply_proposals_dels in E2.
+  set (l3 := match b_proposer (bctx s) with Some pa => _ | None => Some l2 end).
+  assert (H3 : ∀ x, l3 = Some x → dels x = dels l2).
+  { subst l3. intros x Hx. destruct (b_proposer (bctx s)) as [pa|]; [|injection Hx as <-; reflexivity].
+    destruct (0 <? sign256 (b_feesum (bctx s))); [|injection Hx as <-; reflexivity].
+    destruct (add_balance _ _); [|discriminate]. injection Hx as <-. reflexivity. }
+  destruct l3 as [x|]; [|reflexivity]. specialize (H3 _ eq_refl).
+  destruct (unfreeze (base_of s) x (b_height (bctx s))) as [l4|e|p] eqn:E4; try reflexivity.
+  apply unfreeze_dels in E4.
+  destruct (g_maxValidatorCnt (gparams s) <? 0); [reflexivity|]. simpl. congruence.
+Qed.
+
+Lemma init_chain_marks g : marks_incr (work (init_chain g)).
+Proof.
+  unfold init_chain. cbn [work].
+  assert (H1 : ∀ hs l, dels (foldl (λ l (h : addr * Z), set_acct l h.1 {| a_nonce := 0; a_bal := h.2; a_code := false; a_name := 0%N; a_doc := 0%N |}) l hs) = dels l).
+  { induction hs as [|x hs IH]; intros l; simpl; [reflexivity|]. rewrite IH. reflexivity. }
+  assert (H2 : ∀ (vs : list (addr * Z)) l, dels (foldl (λ l v, (find_or_new l v.1).1) l vs) = dels l).
+  { induction vs as [|x vs IH]; intros l; simpl; [reflexivity|]. rewrite IH. apply find_or_new_dels. }
+  assert (H3 : ∀ (vs : list (addr * Z)) l, marks_incr l → marks_incr (foldl (λ l v, set_dels l (<[v.1 := add_stake (new_delegatee v.1)
+               {| s_from := v.1; s_to := v.1; s_hash := 0%N; s_start := 1; s_refund := 0; s_power := v.2 |}]> (dels l))) l vs)).
+  { induction vs as [|x vs IH]; intros l Hl; simpl; [exact Hl|]. apply IH. apply marks_incr_insert; [exact Hl|]. constructor. }
+  apply H3. eapply marks_incr_dels; [rewrite H2, H1; reflexivity|].
+  intros a d Hd. simpl in Hd. rewrite lookup_empty in Hd. discriminate.
+Qed.
+
+(* L4's hypothesis holds on every state of every run from genesis *)
+Theorem marks_incr_run g ops : marks_incr (work (srun (init_chain g) ops)).
+Proof.
+  unfold srun. generalize (init_chain_marks g). generalize (init_chain g).
+  induction ops as [|o ops IH]; intros s Hs; simpl; [exact Hs|]. apply IH.
+  destruct o as [hd|t| |]; simpl.
+  - apply begin_block_marks, Hs.
+  - apply deliver_marks, Hs.
+  - eapply marks_incr_dels; [apply end_block_dels|exact Hs].
+  - exact Hs.
+Qed.
+Print Assumptions marks_incr_run.
